@@ -1130,6 +1130,11 @@ class QuicConnection:
         :param stream_id: The stream's ID.
         :param error_code: An error code indicating why the stream is being reset.
         """
+        if stream_id in self._streams_finished:
+            # All data and the FIN were acknowledged and the stream was
+            # discarded, there is nothing left to reset.
+            return
+
         stream = self._get_or_create_stream_for_send(stream_id)
         stream.sender.reset(error_code)
 
